@@ -1090,6 +1090,83 @@ fn c06_cell(run: &Run, cfg: &Cfg, alphabet: &[Op], depth: usize) {
   crate::crashguard::clear_case();
 }
 
+fn c06_sched_cfg(h: &crate::sched::Harness) -> Cfg {
+  let mut c = Cfg::new(h.fl, Backend::File, true, h.cap);
+  c.min_seg = h.min_seg;
+  c
+}
+
+/// The process is killed while several threads are inside operations: every distinct memory image that occurs
+/// at a scheduling point of any schedule (up to the preemption bound) of two or three concurrent operations is
+/// treated as the file the kill leaves behind and put through the recovery oracle.  (The explorer's arenas are
+/// Vec-backed; C16 establishes that the unified image is byte-identical to the file image.)
+fn c06_concurrent(run: &Run, thorough: bool) {
+  use crate::sched::{explore, ExploreCfg, Harness, ImgState, TOp, IMG};
+  use TOp::*;
+  let menu: Vec<Vec<TOp>> = vec![vec![B(16)], vec![B(24)], vec![DropPre(0)], vec![Discard], vec![B(16), DropOwn], vec![U64]];
+  let mut items: Vec<(Harness, u8)> = vec![];
+  for fl in [Fl::Optimistic, Fl::Pessimistic] {
+    for shape in [3u8, 11, 19] {
+      for i in 0..menu.len() {
+        for j in i..menu.len() {
+          let mut progs = vec![menu[i].clone(), menu[j].clone()];
+          // DropPre(t) names the block of thread t: the second user of a pre-allocated block takes the other one
+          if progs[0] == vec![DropPre(0)] && progs[1] == vec![DropPre(0)] {
+            progs[1] = vec![DropPre(1)];
+          }
+          items.push((Harness { fl, unify: true, min_seg: 8, cap: 256, shape, progs, own_arenas: false, leave: 0, odd: 0 }, if thorough { 3 } else { 2 }));
+        }
+      }
+      if thorough {
+        items.push((Harness { fl, unify: true, min_seg: 8, cap: 256, shape, progs: vec![vec![B(16)], vec![DropPre(0)], vec![B(24)]], own_arenas: false, leave: 0, odd: 0 }, 2));
+        items.push((Harness { fl, unify: true, min_seg: 8, cap: 256, shape, progs: vec![vec![B(16)], vec![DropPre(0)], vec![Discard]], own_arenas: false, leave: 0, odd: 0 }, 2));
+      }
+    }
+  }
+  let images = std::sync::atomic::AtomicU64::new(0);
+  let scheds = std::sync::atomic::AtomicU64::new(0);
+  fn none(_: &str) -> Option<&'static str> {
+    None
+  }
+  par_for_each(&items, |_, (h, bound)| {
+    IMG.with(|i| *i.borrow_mut() = Some(ImgState::default()));
+    let xc = ExploreCfg { bound: *bound, hb: false, drain: false, prop_of: none, max_execs: 2_000_000, cache: false };
+    let st = explore(run, h, &xc, "C06");
+    scheds.fetch_add(st.execs, std::sync::atomic::Ordering::Relaxed);
+    let got = IMG.with(|i| i.borrow_mut().take()).unwrap_or_default();
+    let cfg = c06_sched_cfg(h);
+    for ci in got.out {
+      let case = json!({"engine": "c06-sched", "tag": "C06", "harness": h, "schedule": ci.sched, "event": ci.event});
+      crate::crashguard::set_case(crate::crashguard::head_of(&case));
+      recover(run, &cfg, &ci.img, &ci.lives, &format!("threads {} fl={:?} shape={}", crate::sched::progs_str(&h.progs), h.fl, h.shape), &format!("at scheduling event {} of schedule {:?}", ci.event, ci.sched), &case);
+      images.fetch_add(1, std::sync::atomic::Ordering::Relaxed);
+      run.states.insert(hash_of(&ci.img));
+    }
+    crate::crashguard::clear_case();
+  });
+  run.set("concurrent_part", json!({"harnesses": items.len(), "schedules": scheds.load(std::sync::atomic::Ordering::Relaxed), "distinct_crash_images_recovered": images.load(std::sync::atomic::Ordering::Relaxed), "preemption_bound": if thorough { 3 } else { 2 }, "menu": menu.iter().map(|p| crate::sched::progs_str(&[p.clone()])).collect::<Vec<_>>(), "note": "a kill while two (thorough: also three) threads are inside operations: every distinct (memory image, live ranges) pair occurring at a scheduling point of any explored schedule is recovered"}));
+}
+
+/// replay of one concurrent crash image: the schedule is re-run and the image at the recorded event recovered
+fn replay_c06_sched(case: &Value) -> i32 {
+  use crate::sched::{run_one, ExecOpts, Harness, ImgState, IMG};
+  let h: Harness = serde_json::from_value(case["harness"].clone()).expect("harness");
+  let sched: Vec<u8> = serde_json::from_value(case["schedule"].clone()).expect("schedule");
+  let event = case["event"].as_u64().unwrap_or(0);
+  IMG.with(|i| *i.borrow_mut() = Some(ImgState::default()));
+  let o = ExecOpts { tracing: false, hash_states: false, hb: false, drain: false, cache: false, bounded: true };
+  let _ = run_one(&h, &sched, &o);
+  let got = IMG.with(|i| i.borrow_mut().take()).unwrap_or_default();
+  let run = Run::new("C06", Tier::Quick, "fault_enumeration");
+  let Some(ci) = got.out.iter().find(|c| c.event == event).or(got.out.last()) else {
+    println!("machinery: no image at event {}", event);
+    return 2;
+  };
+  println!("replay c06-sched: {} fl={:?} shape={} schedule {:?}, image at event {} ({} live ranges)", crate::sched::progs_str(&h.progs), h.fl, h.shape, sched, ci.event, ci.lives.len());
+  recover(&run, &c06_sched_cfg(&h), &ci.img, &ci.lives, "replay", &format!("at scheduling event {}", ci.event), case);
+  run.finish()
+}
+
 pub fn check_c06(tier: Tier) -> i32 {
   let run = Run::new("C06", tier, "fault_enumeration");
   let thorough = tier == Tier::Thorough;
@@ -1139,6 +1216,7 @@ pub fn check_c06(tier: Tier) -> i32 {
       }
     }
   }
+  c06_concurrent(&run, thorough);
   run.sample(|| json!({"cfg": "sync Optimistic file arena", "start": "full-2eq", "history": "B(7) B(16)", "crash_images": "one image before every atomic access and before the zeroing of the last operation, plus one after it", "recovery": "map_mut, cursor in range, pre-crash live ranges intact, probe workload (allocations, releases, discard_freelist) terminates under an event budget and never re-issues a live range"}));
   run.rule("for every history of depth 2 (thorough: 4) from 5 start states in 6 cells: the shared mapping is copied before every atomic access (and before the zeroing) of the last operation and after it; every image is written to a file, reopened writable and put through the recovery oracle; unsync: image at every operation boundary; evaluations = crash images recovered; states = distinct images");
   run.set("bounds", json!({"depth": if thorough { 4 } else { 2 }, "alphabet": alphabet.iter().map(|o| o.short()).collect::<Vec<_>>(), "probe_budget_events_per_call": 600}));
@@ -1152,6 +1230,9 @@ pub fn check_c06(tier: Tier) -> i32 {
 pub fn replay(case: &Value) -> i32 {
   std::env::set_var("VERIF_REPLAY_MODE", "1");
   let eng = case["engine"].as_str().unwrap_or("");
+  if eng == "c06-sched" {
+    return replay_c06_sched(case);
+  }
   let sync = case["flavour"].as_str().unwrap_or("sync") == "sync";
   let cfg: Cfg = serde_json::from_value(case["cfg"].clone()).expect("cfg");
   match eng {
